@@ -95,7 +95,9 @@ impl EliasFano {
         let lower_bits = if universe <= n as u64 {
             0
         } else {
-            (64 - (universe / n as u64).leading_zeros()) as usize
+            // At most 63: a full 64-bit low part would leave no high bits and make the
+            // `>> lower_bits` / `<< lower_bits` below overflow (single value >= 2^63 - 1).
+            ((64 - (universe / n as u64).leading_zeros()) as usize).min(63)
         };
 
         let lower_mask = if lower_bits == 0 {
